@@ -805,7 +805,7 @@ def calls_family(out, family, clauses, nontrivial, rule, sample_keys=None, spec=
     rej = [(c, [x for x in cl if x in clauses], ln) for c, cl, ln in res["rejects"]]
     rej = [r for r in rej if r[1]]
     if rej:
-        paths, bc = core.write_replays(out.prop, trace, rej, dict(family=family))
+        paths, bc = core.write_replays(out.prop, trace, rej, dict(family=family, nounicode=nounicode))
         for c in sorted(bc)[:8]:
             out.violation(f"{family} case {c}: clause(s) {sorted(bc[c])}", paths.get(c, "n/a"))
         out.add("rejected_cases", len(bc))
@@ -887,6 +887,10 @@ def c06(out):
                  "stray continuation) in every context; TLC judges losslessness, non-emptiness and the token shape (Tokens.tla: own UTF-8 "
                  "decoding and White_Space set) and str = bytes on valid UTF-8; non-trivial = input has a CR, a multi-byte or an invalid "
                  "sequence", sample_keys=("kind", "mode", "input", "tokens"))
+    # the same family in the build of the library without the `unicode` feature (bytes + inline only)
+    core.build_harness(nounicode=True)
+    calls_family(out, "c06", {"lossless", "shape", "str_bytes_same", "panic"}, nt, out.cov["rule"],
+                 sample_keys=("kind", "mode", "input", "tokens"), nounicode=True, name="c06_nounicode")
     p2(out, "MCTokens.tla", ["MCTokens" + ("_t" if out.tier == "thorough" else "")])
     p3_fn(out, "MCTokens.tla", "MCTokensDump", {"lossless", "shape", "str_bytes_same", "panic"})
     finish_counts(out)
@@ -959,6 +963,9 @@ def c20(out):
                  "really preserves the equality and order pattern (TextA!DetermViol); plus str vs same bytes ops for line/word/char "
                  "tokenizers; non-trivial = >=2 common unique items (Patience) / both sides longer than 1",
                  sample_keys=("alg", "old", "new", "variants", "runs"))
+    core.build_harness(nounicode=True)
+    calls_family(out, "c20", {"determinism", "str_bytes_ops", "harness_relabel"}, nt, out.cov["rule"],
+                 sample_keys=("alg", "old", "new", "variants", "runs"), nounicode=True, name="c20_nounicode")
     # the Patience model draws the collection order of unique()'s HashMap nondeterministically
     p2(out, "MCAlgs.tla", alg_cfgs(out, ["patience"]))
     finish_counts(out)
@@ -1153,7 +1160,9 @@ def replay(pid, path):
         if '"replay_meta"' in first:
             meta = json.loads(first)
     out = wd / "rerun.ndjson"
-    rc, err = core.run_sv(["rerun", "x", "--in", path, "--out", out])
+    if meta.get("nounicode"):
+        core.build_harness(nounicode=True)
+    rc, err = core.run_sv(["rerun", "x", "--in", path, "--out", out], nounicode=bool(meta.get("nounicode")))
     if rc != 0:
         print(f"VIOLATION property={pid} replay={path}   # the harness aborted or hung while re-running the case (rc={rc})")
         return 1
